@@ -219,7 +219,7 @@ func rulesC04(c *Ctx) {
 				}
 				for _, t := range p.chain(a.term(a.E)) {
 					if uc, ok := unparen(t.E).(*ast.CallExpr); ok && p.IsCall(uc, "scheduler.PartitionContext.UpdateAllocation") && t.Idx == 1 {
-						return len(call.Args) == 2 && len(uc.Args) == 1 && p.Src(uc.Args[0]) == p.Src(call.Args[1])
+						return len(call.Args) >= 2 && len(uc.Args) >= 1 && p.Src(uc.Args[0]) == p.Src(call.Args[1])
 					}
 				}
 				return false
@@ -231,7 +231,7 @@ func rulesC04(c *Ctx) {
 		for _, call := range p.callsIn(fn, "scheduler.ClusterContext.notifyRMNewAllocation") {
 			st := p.StateAt(fn, call)
 			okRes := false
-			if len(call.Args) == 2 {
+			if len(call.Args) >= 2 {
 				for _, t := range p.chain(T(call.Args[1], st)) {
 					if f := p.SelField(t.E); f != nil && p.FieldName(f) == "objects.AllocationResult.Request" {
 						okRes = true
